@@ -7,8 +7,9 @@ for id in $ids; do
   [ -f seeded/$id/patch.diff ] || continue
   git -C /repo diff --quiet || { echo "/repo is dirty, abort"; exit 2; }
   git -C /repo apply /verif/seeded/$id/patch.diff || { echo "$id patch does not apply"; continue; }
-  out=$(VERIF_SEED=${VERIF_SEED:-1} ./check $id --tier quick 2>&1); rc=$?
+  prop=${id:0:3}
+  out=$(VERIF_SEED=${VERIF_SEED:-1} ./check $prop --tier quick 2>&1); rc=$?
   git -C /repo checkout -- .
-  v=$(echo "$out" | grep -m1 '^VIOLATION' || echo "-")
+  v=$(echo "$out" | grep '^VIOLATION' | grep -v no-failing-input-found | head -1); [ -z "$v" ] && v=$(echo "$out" | grep -m1 '^VIOLATION' || echo "-")
   echo "$id exit=$rc $v" | tee -a seeded/RESULTS.txt
 done
